@@ -143,3 +143,7 @@ func vC05Mux(k int, withError bool) {
 
 func VerifC05_MuxQuick()    { vC05Mux(2, true) }
 func VerifC05_MuxThorough() { vC05Mux(3, true) }
+
+// larger configurations, explored delay-bounded (see check spec)
+func VerifC05_Mux4() { vC05Mux(4, true) }
+func VerifC05_Mux5() { vC05Mux(5, true) }
